@@ -1,6 +1,7 @@
 """Per-property configuration of ./check (which build configurations run, floors, layers)."""
 
 PROPS = {
+    "C12": dict(configs=["ring", "aws"], floor=500),
     "C03": dict(configs=["ring", "aws"], floor=500),
     "C17": dict(configs=["ring", "aws"], floor=1000),
     "C01": dict(configs=["ring", "aws"], floor=1000),
